@@ -194,7 +194,11 @@ type RecGroup struct {
 type Expr interface{}
 
 type (
-	IntLit  struct{ V int }
+	// Pad > 0: written with leading zeros up to Pad digits (`010` is the decimal number ten)
+	IntLit struct {
+		V   int
+		Pad int
+	}
 	StrLit  struct{ V string }
 	RawLit  struct{ V string } // `...`
 	BoolLit struct{ V bool }
